@@ -310,9 +310,32 @@ def run_model(lines, timeout=3600, shards=None):
 
 
 # ----------------------------------------------------------------------------- implementation side
+_TMP = {}
+
+
+def tmp_root():
+    """One scratch directory per check process (outside /repo and /verif), removed at exit.  Forked pool
+    workers inherit the path and only create sub-directories in it (they skip atexit handlers)."""
+    if "root" not in _TMP:
+        import atexit
+        _TMP["root"] = tempfile.mkdtemp(prefix="rp2verif_")
+        _TMP["pid"] = os.getpid()
+
+        def _cleanup(root=_TMP["root"], pid=os.getpid()):
+            if os.getpid() == pid:
+                try:
+                    os.chdir("/")
+                except OSError:
+                    pass
+                shutil.rmtree(root, ignore_errors=True)
+        atexit.register(_cleanup)
+    return _TMP["root"]
+
+
 def impl_env_setup():
     """Never run rp2 with cwd inside /repo or /verif: importing rp2.logger creates ./log."""
-    d = tempfile.mkdtemp(prefix="rp2verif_")
+    d = os.path.join(tmp_root(), f"p{os.getpid()}")
+    os.makedirs(d, exist_ok=True)
     os.chdir(d)
     src = os.path.join(REPO, "src")
     if sys.path[0] != src:
@@ -328,6 +351,7 @@ def pool_map(fn, items, init=None, chunksize=None):
         if init:
             init()
         return [fn(x) for x in items]
+    tmp_root()            # created in the parent so that it is removed when the check exits
     ctx = mp.get_context("fork")
     with ctx.Pool(NCPU, initializer=init) as pool:
         return pool.map(fn, items, chunksize or max(1, len(items) // (NCPU * 8)))
